@@ -11,6 +11,7 @@ import time
 import z3
 
 PROVED, REFUTED, UNDECIDED = "proved", "refuted", "undecided"
+EXTERNAL_BUDGET_MS = int(os.environ.get("VERIF_EXTERNAL_BUDGET_MS", "60000"))
 
 
 class Solver(object):
@@ -157,7 +158,9 @@ def solve_smt2(args):
         return PROVED, be, time.time() - t, None
     if r == z3.sat:
         return REFUTED, be, time.time() - t, model
-    sv = Solver(timeout_ms=timeout_ms)
+    # the external solvers get a budget sized for a fully loaded machine (they answer in seconds or not at all), so that a
+    # verdict does not flip to `undecided` when all cores are busy
+    sv = Solver(timeout_ms=max(timeout_ms, EXTERNAL_BUDGET_MS))
     st, be2 = sv.external(text)
     if st != UNDECIDED or short >= timeout_ms:
         return st, be2, time.time() - t, (sv.last_model if st == REFUTED else None)
